@@ -164,6 +164,16 @@ class Component(HarnessBase):
                     rec['pwm_set'] = True
                 except ValueError:
                     rec['pwm_set'] = False
+            elif self.comp == 'motor_opt':
+                # option subsets: only one of the two currents is given (variant even: maximum only, odd: no-load only)
+                P['i'] = env.real('i')
+                u = ['A', 'mA', 'uA', 'A'][(self.variant // 2) % 4]
+                fi = float(si.SI['Current'][u])
+                kw = ({'maximum_electric_current': gu.Current(P['i'] / fi, u)} if self.variant % 2 == 0
+                      else {'no_load_electric_current': gu.Current(P['i'] / fi, u)})
+                mo.DCMotor(name='m', inertia_moment=J, no_load_speed=gu.AngularSpeed(100, 'rad/s'),
+                           maximum_torque=gu.Torque(1, 'Nm'), **kw)
+                rec['constructed'] = True
             elif self.comp == 'gear':
                 P['E'] = env.real('E')
                 n = [9, 10, 11, 37][self.variant % 4]
@@ -209,6 +219,8 @@ class Component(HarnessBase):
             obs.append(holds('comp.motor_parameters_physical', z3.And(w0 > 0, Tm > 0, im > 0, i0 >= 0, i0 < im)))
             if rec.get('pwm_set'):
                 obs.append(holds('comp.duty_cycle_in_range', z3.And(T(P['pwm']) >= -1, T(P['pwm']) <= 1)))
+        elif self.comp == 'motor_opt':
+            obs.append(holds('comp.motor_single_current_physical', T(P['i']) > 0 if self.variant % 2 == 0 else T(P['i']) >= 0))
         elif self.comp == 'gear':
             obs.append(holds('comp.gear_parameters_physical', z3.And(T(P['E']) > 0, P['n'] >= 10)))
         elif self.comp == 'helical':
@@ -251,7 +263,7 @@ def specs(tier, seed):
     n = 60
     for i in range(0, len(cells), n):
         out.append(('cells', i // n, tuple(cells[i:i + n])))
-    for comp in ('motor', 'gear', 'helical', 'worm', 'wheel'):
+    for comp in ('motor', 'motor_opt', 'gear', 'helical', 'worm', 'wheel'):
         out.append(('comp', comp))
     for part in range(10):
         out.append(('fp', tier, part, 10))
